@@ -174,6 +174,44 @@ def w_transform(ctx, rng, i):
     ctx.bin("class", cls)
 
 
+def w_fresh(ctx, rng, i):
+    """a signal object owns its samples, and so does everything it returns: editing the array it was built from, or a copy / slice /
+    transform of it, in place must not change what a LATER transform, Parseval sum or power() of the same object gives (the first
+    results being right says nothing about that)."""
+    cls = ["el", "opt1", "opt2"][i % 3]
+    n = int(rng.choice([2, 5, 16, 33]))
+    dtype = ["complex", "float", "int"][(i // 3) % 3]
+    noise = bool((i // 9) % 2)
+    give_dtype = bool((i // 18) % 2)
+    shape = (2, n) if cls == "opt2" else (n,)
+
+    def arr():
+        if dtype == "int":
+            return rng.integers(-9, 10, shape)
+        a = rng.normal(0, 1, shape)
+        return a + 1j * rng.normal(0, 1, shape) if dtype == "complex" else a
+    src, nsrc = arr(), (arr() if noise else None)
+    kw = {"dtype": src.dtype} if give_dtype else {}
+    ctx.describe(cls=cls, n=n, dtype=dtype, noise=noise, dtype_given=give_dtype)
+    with core.quiet():
+        x = T.electrical_signal(src, nsrc, **kw) if cls == "el" else T.optical_signal(src, nsrc, **kw)
+        own = [a for a in (x.signal, x.noise) if a is not None]
+        ctx.check("fresh", not any(np.shares_memory(a, b) for a in own for b in (src, nsrc) if b is not None), "the object keeps (a view of) the array it was built from")
+        ref = {"w": core.digest(x("w").signal), "ws": core.digest(x("w", shift=True).signal), "t": core.digest(x("t").signal), "p": core.digest(x.power())}
+        derived = {"copy()": x.copy(), "slice [:]": x[:], "slice [1:]": x[1:], "x('w')": x("w"), "x('t')": x("t"), "x('w',shift)": x("w", shift=True)}
+        for name, d in derived.items():
+            darr = [a for a in (d.signal, d.noise) if a is not None]
+            ctx.check("fresh", not any(np.shares_memory(a, b) for a in darr for b in own), f"{name} returns (a view of) the samples of the object it came from")
+            for a in darr:                      # edit the derived object in place ...
+                a[...] = 0
+        src[...] = 0                            # ... and the source arrays
+        if nsrc is not None:
+            nsrc[...] = 0
+        now = {"w": core.digest(x("w").signal), "ws": core.digest(x("w", shift=True).signal), "t": core.digest(x("t").signal), "p": core.digest(x.power())}
+    ctx.check("fresh", now == ref, f"transforms / power() of the object changed after its source array, copies, slices or transforms were edited in place: {[k for k in ref if ref[k] != now[k]]}")
+    ctx.case(("fresh", cls, n, dtype, noise, give_dtype), sample=dict(cls=cls, n=n, dtype=dtype, noise=noise) if i < 2 else None)
+
+
 def w_gv_axes(ctx, rng, i):
     """gv configured WITH a slot count (it then holds its own t/w axes), a signal of exactly N*sps samples, then the rate is changed
     with the same sps and N omitted: w() must follow the sampling rate now in force."""
@@ -229,6 +267,7 @@ def w_devices_use(ctx, rng, i):
 WORKLOADS = [
     Workload("transform", w_transform, 1600, 160000),
     Workload("gv_axes", w_gv_axes, 200, 10000),
+    Workload("fresh", w_fresh, 108, 4320),
     Workload("errors", w_errors, 12, 120),
     Workload("devices_use", w_devices_use, 20, 400),
     Workload("repo_tests", lambda ctx, rng, i: core.run_repo_tests(ctx), 1, 1, budget=1800, tiers=("thorough",)),
